@@ -71,15 +71,19 @@ PROPS['C16'] = {
         thm('EmmetProps.C16_html_scan', 'every string, any special-tag table: the HTML scanner model is total and every reported tag is an in-range slice starting with < and ending with >, in increasing non-overlapping order'),
         thm('EmmetProps.C16_css_scan', 'every source (unbalanced braces, unterminated strings and comments included): the CSS scanner model is total and every reported token has 0 <= start <= end <= len(source), its delimiter is -1 or an index into the source'),
         thm('EmmetProps.C16_split_value', 'every value: split_value reports only non-empty ranges 0 <= start < end <= len(value)'),
+        thm('EmmetProps.C16_css_sorted', 'every source: CSS scanner tokens are reported in document order (a later token never starts before an earlier one nor before the position after the brace of an earlier selector)'),
+        thm('EmmetProps.C16_css_match', 'every source, every position (also out of range): a CSS match() result has 0 <= start <= end <= len and 0 <= body_start <= body_end <= len'),
+        thm('EmmetProps.C16_css_outward', 'every source, every position: every range listed by the CSS balanced_outward() has 0 <= start <= end <= len'),
+        thm('EmmetProps.C16_css_inward', 'every source, every position: every range listed by the CSS balanced_inward() has 0 <= start <= end <= len'),
         thm('EmmetProps.C09_match', 'match = innermost enclosing element (used with C09_outward for: match() equals the first entry of balanced_outward())'),
         thm('EmmetProps.C09_outward', 'balanced_outward = all strictly containing elements innermost first (successive entries contain each other and the position)'),
         thm('EmmetProps.C09_inward', 'balanced_inward = element at the position + first-child chain (successive entries lie inside each other)'),
     ],
     'domains': ['dom_html', 'dom_css'],
     'rule': 'all strings up to length 3 (quick) / 4 (thorough) over the markup alphabet `< > / = " \' a b - ! [ ] ? space` and the stylesheet alphabet `{ } : ; ( ) " \' \\ / * a - space newline`, random fragment mixes, mutated generated documents; all positions -1..len+1; html and xml mode; non-trivial = source producing at least one scanner event; distinct = distinct source',
-    'explanation': 'Scanner well-formedness is proved for all strings for the HTML scanner, the CSS scanner and split_value; the ranges computed from the events by the CSS match / balance functions and the attribute parser are decided by correspondence with the model plus the range oracle on the implementation.',
-    'level_text': 'Lean 4 theorems over ALL strings for the HTML scanner (total, in-range, <...> shaped, ordered events), the CSS scanner (total, 0 <= start <= end <= len, delimiter in range) and split_value (non-empty in-range tokens), plus layer-B nesting theorems for the HTML balance functions; the ranges the CSS match / balance functions derive from the events and the HTML attribute parser are at correspondence level: model = code on every explored input and the range oracle holds on the implementation.',
-    'level_note': 'Trusted: Lean kernel + standard axioms; hand-written scanner / matcher models. Range well-formedness of CSS match() / balanced_*() results and of attributes() is not yet a theorem (partial): it is checked exhaustively for short strings on the implementation.',
+    'explanation': 'Range well-formedness is proved for all strings (and all positions) for the HTML scanner, the CSS scanner, split_value and the CSS match / balanced_outward / balanced_inward models; the HTML attribute parser and the no-exception clause are decided by correspondence with the model plus the oracle on the implementation.',
+    'level_text': 'Lean 4 theorems over ALL strings for the HTML scanner (total, in-range, <...> shaped, ordered events), the CSS scanner (total, 0 <= start <= end <= len, delimiter in range) and split_value (non-empty in-range tokens), the CSS match / balanced_outward / balanced_inward models (every reported range, the rule body included, for every position), plus layer-B nesting theorems for the HTML balance functions; the HTML attribute parser and exception-freedom of the Python code are at correspondence level: model = code on every explored input and the range oracle holds on the implementation.',
+    'level_note': 'Trusted: Lean kernel + standard axioms; hand-written scanner / matcher models. Range well-formedness of attributes() is not a theorem (attributes() is not modelled): it is checked exhaustively for short strings on the implementation.',
     'assumptions': [CORR],
 }
 
@@ -104,6 +108,7 @@ PROPS['C19'] = {
     'lean_imports': ['EmmetProps.C19'],
     'theorems': [
         thm('EmmetProps.C19_value', 'every printed expression tree (arbitrary blanks, literals 12 / 1.5 / .5, unary signs, parentheses, five operators) whose grouping is the documented one: evaluate(render e) = value of e in exact arithmetic; ZeroDivisionError is the only error; parity and stack underflow never fire'),
+        thm('EmmetProps.C19_total', 'EVERY string: evaluate ends with a value, the parse error or ZeroDivisionError; no other exception (no IndexError from the operand stack), fuel suffices'),
         thm('EmmetProps.C19_arith_add', 'model rationals = Mathlib Q: add'), thm('EmmetProps.C19_arith_sub', 'sub'), thm('EmmetProps.C19_arith_mul', 'mul'),
         thm('EmmetProps.C19_arith_neg', 'neg'), thm('EmmetProps.C19_arith_floor', 'integer division is the floor of the quotient'),
         thm('M.Q.div_toRat', 'div (non-zero divisor)'),
@@ -111,9 +116,9 @@ PROPS['C19'] = {
     ],
     'domains': ['dom_math'],
     'rule': 'all strings up to length 4 (quick) / 5 (thorough) over `1 2 . + - * / \\ ( ) space`, random longer strings incl. foreign characters (error clause), and expressions generated from the stratified grammar with exact expected values (Fractions; integer division only between integers so that the double floor is exact); extract() at every position of every text; non-trivial = parses into >= 2 tokens; distinct = distinct text',
-    'explanation': 'The exact clause is a theorem end to end (lexing, ordering, evaluation) over exact rationals, tied to Mathlib Q. The implementation computes in IEEE doubles: values are compared within 1e-9 relative. The rejection side (malformed input raises only the parse error) and extract() are decided by correspondence / oracle on the implementation; extract() is not modelled.',
-    'level_text': 'Lean 4 theorem: for every well-formed printed expression with the documented grouping the evaluator model returns the exact arithmetic value (proved end to end: lexer, shunting-yard ordering, RPN evaluation; model rationals proved equal to Mathlib Q). Floating point, the rejection side and extract() are partial: correspondence + oracle.',
-    'level_note': 'Trusted: Lean kernel + standard axioms; hand-written model of parser.py and evaluate (0 differences in RPN token lists, priorities, error classes and positions on every generated input); IEEE rounding is not modelled (values within 1e-9; floor of non-integer quotients excluded).',
+    'explanation': 'The exact clause is a theorem end to end (lexing, ordering, evaluation) over exact rationals, tied to Mathlib Q. The implementation computes in IEEE doubles: values are compared within 1e-9 relative. The rejection side is a theorem too: for EVERY string the evaluator model ends with a value, the parse error or ZeroDivisionError (the proof attempt exposed the IndexError repaired as F35). extract() is decided by the oracle on the implementation (not modelled). Integer division between decimal fractions follows IEEE doubles (known finding F32).',
+    'level_text': 'Lean 4 theorem: for every well-formed printed expression with the documented grouping the evaluator model returns the exact arithmetic value (proved end to end: lexer, shunting-yard ordering, RPN evaluation; model rationals proved equal to Mathlib Q). Second theorem: for EVERY string the evaluator model raises nothing but the parse error and ZeroDivisionError. Floating point and extract() are partial: correspondence + oracle.',
+    'level_note': 'Trusted: Lean kernel + standard axioms; hand-written model of parser.py and evaluate (0 differences in RPN token lists, priorities, error classes and positions on every generated input); IEEE rounding is not modelled (values within 1e-9; a floor whose double quotient falls on the other side of an integer is known finding F32).',
     'assumptions': [CORR, 'double arithmetic agrees with exact arithmetic within 1e-9 relative on the generated expressions', 'numbers have at most 15 digits'],
     'trusted_extra': ['Mathlib (Data.Rat.Floor, Algebra.Order.Field.Rat, FieldSimp, Ring) for the Q-equals-rationals lemmas only'],
 }
